@@ -10,7 +10,7 @@ import ast
 
 from .. import tables
 from ..events import Summaries, calls_in, fi_of_term, bind_call, DUNDERS_CHECKER, DUNDERS_INV
-from ..flow import get_flow, show, strip_sites, subterms
+from ..flow import get_flow, show, strip_sites, subterms, uncopied
 from ..guards import GuardGraph, normal_succ
 from ..model import AnalysisError, first_line, src_of
 
@@ -307,7 +307,8 @@ def provenance_rule(run, model, rule, dunder, what, own_first_ok=False):
         alts_all = val_e[1] if val_e[0] == "phi" else (val_e,)
         bad = None
         for alt in alts_all:
-            parts = _flatten_add(nf.expand_collapse(alt))
+            # element-wise copies of the inherited groups keep the same contracts in the same order
+            parts = [uncopied(x) for x in _flatten_add(nf.expand_collapse(alt))]
             if len(parts) == 1:
                 # key is __init__/__new__: the own list is kept as is (no base part) -- accepted only if that alternative exists by the ctor exclusion
                 own = _is_own(nf, parts[0], dunder)
@@ -645,3 +646,81 @@ def decorate_always(run, model, rule):
             rets = [x for x in fl.cfg.nodes if x.kind == "return" and x.id in seen]
             culprit = rets[0] if rets else None
         run.check(not bypass, rule, "%s:%s" % (fi.qual, what.split(" of ")[0].replace("the ", "")), "%s happens for every class the metaclass creates" % what, "%s can be skipped (`%s`): such a class has no lists of its own and shares -- and extends -- the lists of its base" % (what, first_line(culprit.stmt) if culprit is not None else "early exit"), fi.loc(culprit) if culprit is not None else fi.loc(), None, first_line(culprit.stmt) if culprit is not None else None)
+
+
+def _copies_elementwise(e, of=None):
+    """Is ``e`` a list/generator that holds a *copy* of every element of some iterable (``[g[:] for g in X]``,
+    ``(list(g) for g in X)``, ``[g.copy() for g in X]``, ``copy.deepcopy(X)``)?"""
+    if isinstance(e, ast.Call) and src_of(e.func) in ("copy.deepcopy", "deepcopy") and e.args:
+        return True
+    if isinstance(e, ast.Call) and isinstance(e.func, ast.Name) and e.func.id in ("list", "tuple") and len(e.args) == 1:
+        return _copies_elementwise(e.args[0], of)
+    if isinstance(e, (ast.ListComp, ast.GeneratorExp)) and len(e.generators) == 1 and isinstance(e.generators[0].target, ast.Name) and not e.generators[0].ifs:
+        v = e.generators[0].target.id
+        elt = e.elt
+        is_v = lambda x: isinstance(x, ast.Name) and x.id == v
+        if isinstance(elt, ast.Subscript) and is_v(elt.value) and isinstance(elt.slice, ast.Slice) and elt.slice.lower is None and elt.slice.upper is None and elt.slice.step is None:
+            return True
+        if isinstance(elt, ast.Call) and isinstance(elt.func, ast.Name) and elt.func.id == "list" and len(elt.args) == 1 and is_v(elt.args[0]):
+            return True
+        if isinstance(elt, ast.Call) and isinstance(elt.func, ast.Attribute) and elt.func.attr == "copy" and is_v(elt.func.value) and not elt.args:
+            return True
+        if isinstance(elt, ast.List) and len(elt.elts) == 1 and isinstance(elt.elts[0], ast.Starred) and is_v(elt.elts[0].value):
+            return True
+        if isinstance(elt, ast.BinOp) and isinstance(elt.op, ast.Add) and (is_v(elt.left) and isinstance(elt.right, ast.List) and not elt.right.elts):
+            return True
+    return False
+
+
+def group_copies(run, model, rule):
+    """The precondition GROUPS a class inherits are copies, not the base's own list objects.
+
+    ``add_precondition_to_checker`` appends to the first group of a checker in place.  A derived function without
+    preconditions of its own has the inherited group as its first group: were that the base's list object, a
+    ``require`` applied to the derived function after its class was created would add a condition to the BASE's
+    contract as well."""
+    collapse = model.func("_metaclass._collapse_preconditions")
+    cflow = get_flow(model, collapse)
+    run.saw(cflow)
+    bp = collapse.params[0]
+    copied_in_collapse = False
+    shared_in_collapse = None
+    for n in cflow.cfg.nodes:
+        if n.kind == "return" and n.ast is not None:
+            # the inherited part of the returned list
+            parts = []
+
+            def addends(e):
+                if isinstance(e, ast.BinOp) and isinstance(e.op, ast.Add):
+                    addends(e.left)
+                    addends(e.right)
+                else:
+                    parts.append(e)
+
+            addends(n.ast)
+            for part in parts:
+                mentions = any(isinstance(x, ast.Name) and x.id == bp for x in ast.walk(part))
+                # resolve one level of temporaries
+                if isinstance(part, ast.Name) and part.id != bp:
+                    for st in ast.walk(collapse.node):
+                        if isinstance(st, ast.Assign) and any(isinstance(tg, ast.Name) and tg.id == part.id for tg in st.targets):
+                            if any(isinstance(x, ast.Name) and x.id == bp for x in ast.walk(st.value)):
+                                part, mentions = st.value, True
+                if mentions:
+                    if _copies_elementwise(part):
+                        copied_in_collapse = True
+                    else:
+                        shared_in_collapse = n
+    for kind, nf in namespace_fns(model).items():
+        run.saw(nf.flow)
+        shared = []
+        for n in nf.cfg.nodes:
+            for call, c, a in calls_in(n):
+                if isinstance(call.func, ast.Attribute) and call.func.attr in ("extend", "append") and call.args:
+                    arg = call.args[0]
+                    if any(isinstance(x, ast.Attribute) and x.attr == "__preconditions__" for x in ast.walk(arg)) and any(s_ == ("elem", ("param", nf.bases_p)) for s_ in subterms(strip_sites(nf.flow.term(arg, n)))) or (isinstance(arg, ast.Attribute) and arg.attr == "__preconditions__"):
+                        if not _copies_elementwise(arg):
+                            shared.append(n)
+        ok = copied_in_collapse or not shared
+        where = shared[0] if shared else None
+        run.check(ok, rule, nf.fi.qual, "the inherited precondition groups are copied before they become part of the new function's contract", "the precondition groups collected from a base (`%s`) are put into the new function's list as the very same list objects: `add_precondition_to_checker` appends to the first group in place, so a `require` applied to the derived function after the class was created changes the BASE's contract too" % (first_line(where.stmt) if where is not None else ""), nf.fi.loc(where) if where is not None else nf.fi.loc(), None, first_line(where.stmt) if where is not None else None)
